@@ -330,6 +330,9 @@ def job_check(kind, case, rec):
     flat = []
     steps = []
     k = 0
+    # every other job builds all its steps from ONE ramp dictionary whose entry is replaced between the Step(...) calls (the way a
+    # script re-uses a variable): each step keeps the table it was created with
+    shared = {} if (len(case["steps"]) + case["n"][0] + case["n"][1]) % 2 == 0 else None
     for ramp in case["steps"]:
         vals = [0.5 * v for v in ramp]  # moderate increments: every substep converges unless a failure is injected
         for j in range(len(vals)):
@@ -337,7 +340,13 @@ def job_check(kind, case, rec):
                 vals[j] = float("nan")
             k += 1
         flat.append(vals)
-        steps.append(fem.Step(items=[body], ramp={bounds["move"]: np.array(vals)}, boundaries=bounds))
+        if shared is not None:
+            shared[bounds["move"]] = np.array(vals)
+            steps.append(fem.Step(items=[body], ramp=shared, boundaries=bounds))
+        else:
+            steps.append(fem.Step(items=[body], ramp={bounds["move"]: np.array(vals)}, boundaries=bounds))
+    if shared is not None and len(steps) >= 2:
+        rec.label("steps-built-from-one-re-used-ramp-dictionary")
     seen = []
 
     def cb(stepnumber, substepnumber, substep, **kw):
